@@ -6,6 +6,7 @@
 #include "nmtools/array/view/ufuncs/subtract.hpp"
 #include "nmtools/array/view/ufuncs/clip.hpp"
 #include "nmtools/array/view/where.hpp"
+#include "nmtools/array/view/transpose.hpp"
 namespace view = nm::view;
 using a3_t = hyb_t<unsigned,64,3>;
 using a2_t = hyb_t<unsigned,16,2>;
@@ -32,6 +33,25 @@ KERNEL int K(k_sub_12)(const size_t* sa, const unsigned* da, const size_t* sb, c
 // 2-d (op) 2-d: size-1 axes stretched on either side
 KERNEL int K(k_sub_22)(const size_t* sa, const unsigned* da, const size_t* sb, const unsigned* db, const size_t* idx, size_t nidx, size_t* oshape, size_t* odim, unsigned* out){
   a2_t a; a2_t b; if (!mk2(a,sa,da) || !mk2(b,sb,db)) return -1;
+  return observe(view::subtract(a,b), idx, nidx, oshape, odim, out);
+}
+// 3-d (op) 2-d
+KERNEL int K(k_sub_32)(const size_t* sa, const unsigned* da, const size_t* sb, const unsigned* db, const size_t* idx, size_t nidx, size_t* oshape, size_t* odim, unsigned* out){
+  a3_t a; a2_t b; if (!mk3(a,sa,da) || !mk2(b,sb,db)) return -1;
+  return observe(view::subtract(a,b), idx, nidx, oshape, odim, out);
+}
+// a VIEW as operand: transpose(a) (op) 1-d, and unary negative of transpose(a)
+KERNEL int K(k_sub_t21)(const size_t* sa, const unsigned* da, const size_t* sb, const unsigned* db, const size_t* idx, size_t nidx, size_t* oshape, size_t* odim, unsigned* out){
+  a2_t a; a1_t b; if (!mk2(a,sa,da) || !mk1(b,sb,db)) return -1;
+  return observe(view::subtract(view::transpose(a),b), idx, nidx, oshape, odim, out);
+}
+KERNEL int K(k_neg_t2)(const size_t* sa, const unsigned* da, const size_t* idx, size_t nidx, size_t* oshape, size_t* odim, unsigned* out){
+  a2_t a; if (!mk2(a,sa,da)) return -1;
+  return observe(view::negative(view::transpose(a)), idx, nidx, oshape, odim, out);
+}
+// mixed element types under broadcasting: uint8 2-d (op) unsigned 1-d -> unsigned
+KERNEL int K(k_sub_u8_21)(const size_t* sa, const unsigned char* da, const size_t* sb, const unsigned* db, const size_t* idx, size_t nidx, size_t* oshape, size_t* odim, unsigned* out){
+  hyb_t<unsigned char,16,2> a; a1_t b; if (!mk2(a,sa,da) || !mk1(b,sb,db)) return -1;
   return observe(view::subtract(a,b), idx, nidx, oshape, odim, out);
 }
 // scalar operand on the right / on the left
